@@ -337,6 +337,13 @@ func (it *indexedMessageIterator) loadChunk(chunkIndex *ChunkIndex) error {
 					}
 					chunkSlot.unreadMessages++
 				}
+			} else if len(it.topics) == 0 {
+				// Channels are known from the summary only. Without a topic selection a message
+				// on an unknown channel means the summary does not repeat the channel records;
+				// skipping it would silently lose data.
+				return fmt.Errorf(
+					"message on channel %d, which the summary section does not define: "+
+						"cannot read this file using the index", msg.ChannelID)
 			}
 		}
 		offset = recordEnd
